@@ -143,13 +143,15 @@ func (node *PFCPNode) NewPFCPConn(lAddr, rAddr string, buf []byte) *PFCPConn {
 
 	p.setLocalNodeID(node.upf.nodeID)
 
+	// Update map of connections: before the first message is handled, so that a Shutdown which
+	// that very message triggers (an Association Release Request) finds the entry and the node
+	// forgets the association; stored afterwards, the entry outlived its association for good.
+	node.pConns.Store(rAddr, p)
+
 	if buf != nil {
 		// TODO: Check if the first msg is Association Setup Request
 		p.HandlePFCPMsg(buf)
 	}
-
-	// Update map of connections
-	node.pConns.Store(rAddr, p)
 
 	go p.Serve()
 
